@@ -27,11 +27,11 @@ ASSUMPTIONS = ['legitimate holders = DESIGN.md Appendix A "holds afterwards"',
 def plan(tier):
     if tier == 'thorough':
         return {'shards': 16, 'timeout_s': 1500}
-    return {'shards': 4, 'timeout_s': 280}
+    return {'shards': 8, 'timeout_s': 280}
 
 
 def n_cases(tier):
-    return 6000 if tier == 'thorough' else 300
+    return 5000 if tier == 'thorough' else 700
 
 
 ASYNC_HOLDERS = ['buffer', 'delay', 'rate_limit', 'map_async', 'timed_window', 'timed_window_unique',
